@@ -82,3 +82,29 @@ void h_read_double(void) { mkbuf(); struct out o; o.line = o.col = 0;
   u32 rc = w_read_double(buf, n, pos, (char *)&o); VF_OBS(rc); VF_ASSERT(rc <= 1, "only ReadError may be thrown");
   if (rc == 0) VF_ASSERT(o.consumed > (s64)skipsp(pos) && o.consumed <= (s64)n, "ReadDouble consumes at least one character, inside the input"); else check_err(&o);
   VF_WITNESS(); }
+
+/* ---- binary token layer: reads are whole items inside [pos, n), native byte order; short input => BinaryReadError, nothing read past the end ---- */
+#ifndef BINOP
+#define BINOP 0
+#endif
+void h_bin(void) { mkbuf(); struct out o; o.line = o.col = 0; o.ival = 0; o.dval = 0; o.slen = 0; o.soff = 0;
+  u32 rc = w_bin(buf, n, pos, BINOP, (char *)&o); VF_OBS(rc); VF_ASSERT(rc <= 1, "only a read error may be thrown");
+  u32 need = BINOP == 2 ? 2 : (BINOP == 3 || BINOP == 4) ? 8 : 4;
+  u64 raw = 0; for (u32 b = 0; b < 8; b++) { if (b < need && pos + b < n) raw |= (u64)(u8)buf[pos + b] << (8 * b); }
+  int enough = pos + need <= n;
+  if (BINOP <= 4) {
+    int neg = BINOP == 1 && enough && (s32)(u32)raw < 0;
+    VF_ASSERT((rc == 0) == (enough && !neg), "binary item read iff all of its bytes are inside the input (and ReadUInt is non-negative)");
+    if (rc == 0) { VF_ASSERT(o.consumed == (s64)(pos + need), "cursor right after the item");
+      if (BINOP == 0 || BINOP == 1) VF_ASSERT(o.ival == (s64)(s32)(u32)raw, "value = the 4 bytes in native order");
+      if (BINOP == 2) VF_ASSERT(o.ival == (s64)(s16)(u16)raw, "value = the 2 bytes in native order");
+      if (BINOP == 3) VF_ASSERT(o.ival == (s64)raw, "value = the 8 bytes in native order");
+      if (BINOP == 4) VF_ASSERT(vf_d2bits(o.dval) == raw, "double = the 8 bytes in native order"); }
+  } else {
+    s32 len = (s32)(u32)raw;
+    int ok = enough && len >= 0 && (u64)pos + 4 + (u64)(u32)len <= n;
+    VF_ASSERT((rc == 0) == (ok != 0), "string read iff its length field and all announced bytes are inside the input");
+    if (rc == 0) { VF_ASSERT(o.slen == (u64)(u32)len && o.consumed == (s64)(pos + 4 + (u32)len), "string length and cursor");
+      if (len) VF_ASSERT(o.soff == (s64)(pos + 4), "string bytes start right after the length field"); }
+  }
+  VF_WITNESS(); }
